@@ -48,6 +48,23 @@ TABLE.update({
     "<vocabulary::ArcBnode as sophia_api::prelude::Term>::borrow_term#index:str:RangeFrom":
         (1, "as bnode_id"),
 })
+# Token classes for which assumption A8 ("the back-end hands over only tokens of its normative grammar") is known to be false:
+# the unchecked construction (guarded by a debug_assert only) then panics in debug builds and yields an invalid "validated"
+# value in release builds.  Each entry was reproduced against the real parsers (findings/C08_backend_tokens_panic.rs).
+REFUTED_BACKEND_GUARANTEES = {
+    "model::bnode_id#validator-call:BnodeId:call:std::convert::Into::into":
+        "rio hands over blank node labels outside BNODE_ID: rio_turtle keeps a trailing `.` when the next character is a non-ASCII "
+        "one that is not a name character (`<a:s> <a:p> _:a.\u00D7` yields the label `a.` before reporting the syntax error) and "
+        "rio_xml accepts `rdf:nodeID=\"a.\"`; model::bnode_id then panics (debug_assert) in debug builds and builds an invalid BnodeId "
+        "in release builds",
+    "<vocabulary::ArcVoc as rdf_types::IriVocabulary>::get#validator-call:Iri:call:std::convert::From::from":
+        "json-ld's IRI type (iref) accepts strings that are not RFC 3987 IRIs (`http://[v1.\u200e]/p`: a bidi mark inside an IPvFuture "
+        "literal): ArcVoc::get wraps it with Iri::new_unchecked, whose debug-build re-validation panics (and which is an invalid Iri in "
+        "release builds)",
+    "model::iri#validator-call:IriRef:call:std::convert::Into::into":
+        "rio_xml builds property IRIs by concatenating an unvalidated namespace (`xmlns:z=\"not an iri \"` + `z:p`): model::iri "
+        "panics (debug_assert) in debug builds and builds an invalid IriRef in release builds",
+}
 # validator-call sites (X::new_unchecked(arg)): key -> (validator language obligation that discharges it, reason)
 VALIDATOR_CALLS = {
     "model::bnode_id#validator-call:BnodeId:call:std::convert::Into::into": ("L8.1:label", "rio blank node label"),
@@ -196,6 +213,10 @@ def run(ck, facts, tier):
                 ck.bad("R8.2", "R8.2@" + s.key, "unaudited `new_unchecked` on data from a back-end: which validator language covers it?", s.loc)
             elif not held.get(ent[0], False):
                 ck.bad("R8.2", "R8.2@" + s.key + "#undischarged", "`new_unchecked` relies on obligation %s, which does not hold" % ent[0], s.loc)
+            elif s.key in REFUTED_BACKEND_GUARANTEES:
+                # L8.1 (the validator accepts what the back-end certainly delivers) holds, but the converse assumption A8
+                # (the back-end delivers nothing else) has been refuted by a reproduction for this token class
+                ck.bad("R8.2", "R8.2@" + s.key + "#backend-guarantee", REFUTED_BACKEND_GUARANTEES[s.key], s.loc)
             else:
                 ck.ok("R8.2", s.key, "discharged by %s (%s)" % ent)
             continue
